@@ -27,6 +27,10 @@ def tau(scale: float) -> float:
     return 1e-5 * max(1.0, abs(scale))
 
 
+# Integer capacity mode (see CVRP.__init__): False = float band everywhere (C01/C05: the environment's own
+# float32 mask arithmetic is inside the band); True = exact integer verdict in violations() (C06: the checker
+# must accept an exactly full vehicle); "verdict" = additionally in admissible() (reference-built solutions).
+INTEGER_CAPACITY = False
 MAY_COUNT = 0  # number of band() calls that landed inside the band (verdict indeterminate)
 EXACT = False  # boundary-builder instances: arithmetic is exact, so equality is decidable (tau = 0)
 
@@ -214,10 +218,26 @@ class CVRP(DepotRef):
         self.depot_visited = False
         self.cur = 0
         self.load = 0.0
+        # Integer mode: generator instances carry demands k/Q (Q = `capacity` key).  When every demand is
+        # such a fraction the capacity constraint is decided exactly in integers (sum k <= Q): an exactly
+        # full vehicle is feasible by the problem definition, whatever float32 makes of the sum.
+        self.Q = None
+        self.kdem = None
+        if INTEGER_CAPACITY and "capacity" in inst and self.cap == 1.0:
+            q = L(inst["capacity"])
+            q = float(q[0] if isinstance(q, list) else q)
+            ks = [d * q for d in self.demand]
+            if q >= 1 and abs(q - round(q)) < 1e-9 and all(abs(k - round(k)) < 1e-3 for k in ks):
+                self.Q = int(round(q))
+                self.kdem = [int(round(k)) for k in ks]
+        self.kload = 0
 
     # constraint hooks for subclasses ---------------------------------------------------------------
     def _customer_band(self, j):
-        b = band(self.cap - (self.load + self.demand[j]), self.cap)
+        if self.kdem is not None and INTEGER_CAPACITY == "verdict":
+            b = "must" if self.kload + self.kdem[j] <= self.Q else "not"
+        else:
+            b = band(self.cap - (self.load + self.demand[j]), self.cap)
         if b == "not":
             self.why[j] = "capacity"
         return b
@@ -251,9 +271,12 @@ class CVRP(DepotRef):
     def apply(self, a):
         if a == 0:
             self.load = 0.0
+            self.kload = 0
             self.depot_visited = True
         else:
             self.load += self.demand[a]
+            if self.kdem is not None:
+                self.kload += self.kdem[a]
             self.visited.add(a)
         self.cur = a
         self.t += 1
@@ -270,6 +293,11 @@ class CVRP(DepotRef):
     def violations(self, actions):
         v = once_violations(actions, self.n)
         for r in routes_of(actions):
+            if self.kdem is not None and INTEGER_CAPACITY:
+                k = sum(self.kdem[a] for a in r if 0 < a <= self.n)
+                if k > self.Q:
+                    v.append(("capacity", (k - self.Q) / self.Q))
+                continue
             ld = sum(self.demand[a] for a in r if 0 < a <= self.n)
             if band(self.cap - ld, self.cap) == "not":
                 v.append(("capacity", ld - self.cap))
